@@ -86,7 +86,8 @@ class DenseTimeOnlineUpdateVisitor(AbstractOnlineUpdateVisitor):
         return sample_return
 
     def visitConstant(self, node, online_operator_dict, var_object_dict):
-        sample_return = [[0, node.val], [float("inf"), node.val]]
+        # a constant is the signal [[0, c], [inf, c]]: it is handed to its parent once, not once per update
+        sample_return = online_operator_dict[node.name].update()
         return sample_return
 
 
